@@ -775,6 +775,21 @@ func (d *verifGC) random(rnd *rand.Rand) {
 			d.step(map[string]any{"op": "block_create", "b": b, "aff": aff})
 		}
 	}
+	if rnd.Intn(8) == 0 {
+		// prelude: a node with a tunnel address (and sometimes a leaked pod address) is deleted, the release of
+		// its addresses fails so that they stay queued, and the node re-registers under the same name
+		n, b := nodes[0], blocks[0]
+		d.step(map[string]any{"op": "node_add", "n": n})
+		d.step(map[string]any{"op": "block_create", "b": b, "aff": n})
+		d.step(map[string]any{"op": "assign", "b": b, "ip": ipOf(b, 0), "handle": "vxlan-tunnel-addr@" + n, "kind": "tunnel", "owner": "", "node": n})
+		if rnd.Intn(2) == 0 {
+			d.step(map[string]any{"op": "assign", "b": b, "ip": ipOf(b, 1), "handle": "k8s-pod-network.gone@" + n, "kind": "pod", "owner": "gone", "node": n})
+		}
+		d.step(map[string]any{"op": "deliver", "b": b})
+		d.step(map[string]any{"op": "node_del", "n": n, "deliver": rnd.Intn(2) == 0})
+		d.step(map[string]any{"op": "sync", "full": rnd.Intn(2) == 0, "fail": "ips"})
+		d.step(map[string]any{"op": "node_add", "n": n})
+	}
 	steps := 15 + rnd.Intn(30)
 	longs := 0
 	for i := 0; i < steps; i++ {
